@@ -6,6 +6,7 @@ classes of C01 (sub-graphs with arcs leaving the graph, graphs with regions).
 """
 import itertools
 import random
+import sys
 import time
 
 from .. import core, attach, drivers
@@ -163,6 +164,84 @@ def exercise(gd, acc, rng=None, all_subsets=True):
             except RuntimeError:
                 pass
         ctx.hit("direct.requery_after_edit")
+    # fault histories on the same object.  (natural) remove_blocks is handed an
+    # existing and an unknown name: it deletes the first and then raises
+    # KeyError; the block is put back and everything is asked again.
+    # (injected) the queries are pure: one that is aborted by an exception at
+    # a random library call leaves the graph as it was, and the same query
+    # asked again must be answered from the graph as it is now.
+    if len(names) >= 2:
+        victim = hr.choice(names)
+        vb = scfg.graph[victim]
+        # ask first: what a query remembers is what a refusal can leave stale
+        for sub in [set(names), {n for n in names if n != victim}]:
+            try:
+                scfg.find_headers_and_entries(set(sub))
+            except AssertionError:
+                pass
+            scfg.find_exiting_and_exits(set(sub))
+        scfg.compute_scc()
+        for f in (T._doms, T._post_doms):
+            try:
+                f(scfg)
+            except RuntimeError:
+                pass
+        try:
+            scfg.remove_blocks([victim, "<no such block>"])
+            ctx.hit("direct.unknown_name_removed")
+        except KeyError:
+            ctx.hit("direct.refused_remove_blocks")
+        left = [n for n in names if n in scfg.graph]
+        for sub in ([set(left[:1]), set(left)] if left else []):
+            try:
+                scfg.find_headers_and_entries(set(sub))
+            except AssertionError:
+                pass
+            scfg.find_exiting_and_exits(set(sub))
+        scfg.compute_scc()
+        for a in left:
+            for b in names:
+                scfg.is_reachable_dfs(a, b)
+        if victim not in scfg.graph:
+            scfg.add_block(vb)
+        for sub in [{victim}, set(names)]:
+            try:
+                scfg.find_headers_and_entries(set(sub))
+            except AssertionError:
+                pass
+            scfg.find_exiting_and_exits(set(sub))
+        ctx.hit("direct.requery_after_refused_edit")
+    if hasattr(sys, "monitoring") and names and hr.random() < 0.25:
+        from ..monitors import fault
+
+        def queries():
+            scfg.compute_scc()
+            try:
+                scfg.find_head()
+            except AssertionError:
+                pass
+            for a in names[:3]:
+                for b in names[:3]:
+                    scfg.is_reachable_dfs(a, b)
+            sub = set(names[:max(1, len(names) // 2)])
+            try:
+                scfg.find_headers_and_entries(set(sub))
+            except AssertionError:
+                pass
+            scfg.find_exiting_and_exits(set(sub))
+            for f in (T._doms, T._post_doms):
+                try:
+                    T._imm_doms(f(scfg))
+                except (RuntimeError, ValueError):
+                    pass
+
+        saved = core.CTX
+        fctx = core.set_ctx(core.Ctx(None))  # contracts of the aborted round are not charged
+        fault.inject_around(fctx, hr, queries, tries=2)
+        core.set_ctx(saved)
+        ctx.counters.update(fctx.counters)
+        queries()
+        ctx.hit("direct.requery_after_injected_fault")
     # a second kind of edit: one arc is declared a back edge (it then no longer
     # counts as a jump target for any query), queried, and un-declared again
     arcs = [(a, t) for a in names for t in scfg.graph[a].jump_targets if t in scfg.graph]
